@@ -265,7 +265,13 @@ def main():
         },
         'engines': [{'name': 'tlc', 'path': '/verif/spec', 'serves_properties': sorted(CLAIMS.keys()),
                      'kind_free_text': 'explicit TLA+ specifications checked by TLC (exhaustive, simulation, liveness), bound to the Go code by '
-                                       'model-based replay of TLC behaviours and by TLC validation of traces recorded from the real code'}],
+                                       'model-based replay of TLC behaviours and by TLC validation of traces recorded from the real code'},
+                    {'name': 'tlc-extra-X01', 'path': '/verif/spec/query/Tail.tla', 'serves_properties': ['C12', 'C14', 'C15'],
+                     'kind_free_text': 'extra check beyond the list: live tail over a real websocket (python3 tools/check.py X01 quick|thorough); part of the thorough tier of C12'},
+                    {'name': 'tlc-extra-X02', 'path': '/verif/spec/Qryn.tla', 'serves_properties': ['C01', 'C04', 'C06', 'C16', 'C17'],
+                     'kind_free_text': 'extra check beyond the list: end-to-end composition, acknowledged data is readable through every endpoint of its signal (python3 tools/check.py X02 quick|thorough); part of the thorough tier of C04'},
+                    {'name': 'tlc-extra-X03', 'path': '/verif/spec/ingest/WriterLifecycle.tla', 'serves_properties': ['C01', 'C02'],
+                     'kind_free_text': 'extra check beyond the list: worker selection, sync/async pools, registry routing, Init/Run/Stop, watchdog (python3 tools/check.py X03 quick|thorough)'}],
         'checks': checks,
         'not_applicable': na,
         'notes': 'exit 0 ok / exit 1 VIOLATION (only from behaviour of the real code) / exit 2 infrastructure. See DESIGN.md.',
